@@ -78,7 +78,9 @@ Fixpoint cmp_blocks (n : nat) (s : xstate) (hs : Heap.st) (a : Z) : option strin
                  ++ z_to_string (slot (Heap.ps b) 0) ++ " " ++ z_to_string (slot (Heap.ps b) 1) ++ " " ++ z_to_string (slot (Heap.ps b) 2) ++ ")")
   end.
 
-Definition cmp_snap (s : xstate) (sn : hsnap) : option string :=
+(* `full`: compare every block; otherwise only the registers and the pointers of the variables (long
+   runs compare all blocks at the first 256 boundaries, then at every 64th, and at the last one) *)
+Definition cmp_snap (full : bool) (s : xstate) (sn : hsnap) : option string :=
   let hs := sn_heap sn in
   match rget s 0%N, rget s HEAP, rget s FREE with
   | Some sp, Some h, Some f =>
@@ -87,7 +89,7 @@ Definition cmp_snap (s : xstate) (sn : hsnap) : option string :=
       else if negb (hw s <? Heap.frontier hs) then Some "memory at or above the abstract frontier has been written"
       else match cmp_ptrs s sp (sn_kinds sn) (sn_ptrs sn) 0 with
            | Some w => Some w
-           | None => cmp_blocks (Z.to_nat ((Heap.frontier hs - HEAP_BASE) / 64)) s hs HEAP_BASE
+           | None => if full then cmp_blocks (Z.to_nat ((Heap.frontier hs - HEAP_BASE) / 64)) s hs HEAP_BASE else None
            end
   | _, _, _ => Some "stack, heap or free register undefined at a statement boundary"
   end.
@@ -101,7 +103,8 @@ Definition at_lmark (s : xstate) (st : lstats) : lstats :=
       {| l_boundaries := l_boundaries st + 1;
          l_mismatch := match l_mismatch st with
                        | Some w => Some w
-                       | None => match cmp_snap s sn with
+                       | None => match cmp_snap ((l_boundaries st <? 256)%N || (N.land (l_boundaries st) 63 =? 0)%N
+                                                    || match rest with [] => true | _ => false end) s sn with
                                  | Some w => Some ("at boundary " ++ n_to_string (l_boundaries st) ++ ": " ++ w)
                                  | None => None
                                  end
